@@ -67,6 +67,23 @@ fn main() {
     if tier != "quick" && tier != "thorough" {
         tier = "quick".into();
     }
+    // resident-set cap: an engine that outgrows the machine is a machinery failure with a message, not a
+    // process killed by the kernel without one
+    std::thread::spawn(|| {
+        let cap_kb: u64 = std::env::var("VERIF_RSS_CAP_GB").ok().and_then(|s| s.parse::<u64>().ok()).unwrap_or(40) * 1024 * 1024;
+        loop {
+            std::thread::sleep(std::time::Duration::from_secs(2));
+            if let Ok(s) = std::fs::read_to_string("/proc/self/status") {
+                if let Some(l) = s.lines().find(|l| l.starts_with("VmRSS:")) {
+                    let kb: u64 = l.split_whitespace().nth(1).and_then(|x| x.parse().ok()).unwrap_or(0);
+                    if kb > cap_kb {
+                        eprintln!("MACHINERY-FAILURE: explorer resident set {} kB exceeds the cap of {} kB (no verdict)", kb, cap_kb);
+                        std::process::exit(3);
+                    }
+                }
+            }
+        }
+    });
     let seed = std::env::var("VERIF_SEED").ok().and_then(|s| s.parse::<i64>().ok()).unwrap_or(0);
     let verif_dir = PathBuf::from(std::env::var("VERIF_DIR").unwrap_or_else(|_| "/verif".into()));
     let target = PathBuf::from(
